@@ -274,6 +274,7 @@ const (
 	tLocales
 	tActor
 	tAddress
+	tAnyMap
 )
 
 type field struct {
@@ -307,9 +308,11 @@ var (
 	scIntrospection = cat([]field{{"active", tBool}, {"scope", tSDA}, {"client_id", tStr}, {"token_type", tStr}, {"exp", tTime}, {"iat", tTime},
 		{"auth_time", tTime}, {"nbf", tTime}, {"sub", tStr}, {"aud", tAud}, {"amr", tStrList}, {"iss", tStr}, {"jti", tStr},
 		{"username", tStr}, {"act", tActor}}, scUserinfoPart)
-	scActor   = []field{{"act", tActor}, {"iss", tStr}, {"sub", tStr}}
-	scAddress = []field{{"formatted", tStr}, {"street_address", tStr}, {"locality", tStr}, {"region", tStr}, {"postal_code", tStr}, {"country", tStr}}
-	scJWKS    = []field{{"keys", tStrList}}
+	scLogoutToken         = []field{{"iss", tStr}, {"sub", tStr}, {"aud", tAud}, {"iat", tTime}, {"exp", tTime}, {"jti", tStr}, {"events", tAnyMap}, {"sid", tStr}}
+	scJWTProfileAssertion = []field{{"iss", tStr}, {"sub", tStr}, {"aud", tAud}, {"exp", tTime}, {"iat", tTime}}
+	scActor               = []field{{"act", tActor}, {"iss", tStr}, {"sub", tStr}}
+	scAddress             = []field{{"formatted", tStr}, {"street_address", tStr}, {"locality", tStr}, {"region", tStr}, {"postal_code", tStr}, {"country", tStr}}
+	scJWKS                = []field{{"keys", tStrList}}
 	// keys that match no field of any decoded struct (also not case-insensitively)
 	unknownKeys = []string{"x1", "zz9", "custom_claim", "urn:x:y", "https://claims.example/roles", ""}
 )
@@ -456,6 +459,8 @@ func (g *gen) good(t ft, depth int) *J {
 			return jstr("en de")
 		}
 		return jarr(jstr("en"), jstr("de-CH"), jstr("xx"))
+	case tAnyMap:
+		return jobj(kv{"http://schemas.openid.net/event/backchannel-logout", jobj()}, kv{"n", g.any(1)})
 	case tActor:
 		if depth <= 0 {
 			return jobj(kv{"sub", jstr("leaf")}, kv{"iss", jstr("https://op.example.com")})
@@ -476,6 +481,8 @@ func (g *gen) bad(t ft, depth int) *J {
 	case tTime:
 		return drv.Pick(r, []*J{jstr("x"), jstr(""), jstr("2023-01-02"), jbool(true), jarr(jint(1)), jobj(), jhuge("1e999"),
 			jbig("18446744073709551616"), jfrac("1e30", 1), jint(-1), jnull(), jstr("1700000000")})
+	case tLocale: // every JSON kind, also the shortest literals
+		return drv.Pick(r, []*J{jint(int64(r.IntN(10))), jint(12), jint(-1), jbool(true), jbool(false), jarr(), jobj(), jarr(jstr("en")), jstr("x y"), jstr("e"), jnull(), jfrac("1.5", 1)})
 	case tActor:
 		if r.Chance(1, 4) { // deep nesting
 			d := 20 + r.IntN(60)
